@@ -403,8 +403,18 @@ pub fn eval_func(s: &Subst, name: &str, args: &[T]) -> Result<T, String> {
 /// `A = B` where either side may be a function term (C13).
 pub fn unify_goal(s: &mut Subst, a: &T, b: &T) -> Result<bool, String> {
     let wa = s.walk(a); let wb = s.walk(b);
-    let va = match &wa { T::Func(n, x) => eval_func(s, n, x)?, t => t.clone() };
-    let vb = match &wb { T::Func(n, x) => eval_func(s, n, x)?, t => t.clone() };
+    // A function term that is an argument of a complex term is evaluated when unification reaches
+    // it. The reference evaluates such arguments up front, which gives the same value whenever
+    // their own arguments are ground already; otherwise the case is out of domain.
+    fn eval_args(s: &Subst, t: &T) -> Result<T, String> {
+        match t {
+            T::Func(n, x) => eval_func(s, n, x),
+            T::Cplx(f, a) if a.iter().any(|x| x.has_func()) => Ok(T::Cplx(f.clone(), a.iter().map(|x| match x { T::Func(n, y) => eval_func(s, n, y), other => Ok(other.clone()) }).collect::<Result<Vec<T>, String>>()?)),
+            other => Ok(other.clone()),
+        }
+    }
+    let va = eval_args(s, &wa)?;
+    let vb = eval_args(s, &wb)?;
     if va.has_func() || vb.has_func() { return Err("nested function term".into()); }
     Ok(s.unify(&va, &vb))
 }
